@@ -162,7 +162,11 @@ impl<'a> DataParser<'a> {
             return;
         }
 
-        if self.current_element.len() > 0 {
+        // Whitespace after the last item (e.g. between a closing quote and the
+        // colon that ends the statement) is not an item of its own.
+        let has_pending_item = self.state == ParseState::InDoubleQuotedString
+            || !self.current_element.trim().is_empty();
+        if has_pending_item {
             self.push_current_element();
         } else if self.elements.len() == 0 {
             self.push_current_element();
